@@ -5,6 +5,9 @@
 set -u
 SD="$1"; PID="$2"
 export GOFLAGS=-mod=mod GOPROXY=off GOSUMDB=off GOTOOLCHAIN=local
+if ! git -C /repo diff --quiet || [ -n "$(git -C /repo status --porcelain)" ]; then
+  echo "try_seed: /repo has uncommitted changes; commit them first (this script ends with git checkout -- .)"; exit 3
+fi
 WT=/tmp/wt-confirm-$$
 git -C /repo worktree add -q --detach $WT HEAD || exit 2
 trap 'git -C /repo worktree remove --force $WT >/dev/null 2>&1' EXIT
